@@ -234,8 +234,8 @@ fn lenfield(e: &Enc, label: &str) -> Option<vmodel::wire::LenField> {
     e.lens.iter().find(|l| l.label == label).cloned()
 }
 
-fn invalid(t: &mut Tape, obs: &mut Obs) -> R {
-    let tail = gen_hs_tail(t);
+/// one structurally invalid handshake message (complete framing, invalid body): (family label, encoding); None when the drawn case is degenerate
+pub fn gen_invalid(t: &mut Tape) -> Option<(String, Vec<u8>)> {
     match t.below(10) {
         0 => {
             // session id longer than 32, with all its bytes present
@@ -247,7 +247,7 @@ fn invalid(t: &mut Tape, obs: &mut Obs) -> R {
                 MHs::ClientHello { sid, .. } | MHs::ServerHello { sid, .. } => *sid = Some(long),
                 _ => {}
             }
-            expect_rejected(if k == 1 { "sid-over-32:ClientHello" } else { "sid-over-32:ServerHello" }, &h.to_bytes(), &tail, obs)
+            Some((if k == 1 { "sid-over-32:ClientHello" } else { "sid-over-32:ServerHello" }.to_string(), h.to_bytes()))
         }
         1 => {
             // odd cipher list length (all bytes present: at least the compression length byte follows)
@@ -264,7 +264,7 @@ fn invalid(t: &mut Tape, obs: &mut Obs) -> R {
                 v = 1;
             }
             set_len(&mut e, "ch.ciphers", v as u64);
-            expect_rejected("odd-cipher-length", &e.buf, &tail, obs)
+            Some(("odd-cipher-length".to_string(), e.buf))
         }
         2 => {
             // cipher list longer than what remains of the body (even length)
@@ -278,10 +278,10 @@ fn invalid(t: &mut Tape, obs: &mut Obs) -> R {
                 v += 1;
             }
             if v > 65534 {
-                return Ok(());
+                return None;
             }
             set_len(&mut e, "ch.ciphers", v as u64);
-            expect_rejected("cipher-length-overlong", &e.buf, &tail, obs)
+            Some(("cipher-length-overlong".to_string(), e.buf))
         }
         3 => {
             // compression list longer than what remains of the body
@@ -297,11 +297,11 @@ fn invalid(t: &mut Tape, obs: &mut Obs) -> R {
             let lf = lenfield(&e, "ch.comp").unwrap();
             let avail = e.buf.len() - (lf.off + 1);
             if avail >= 255 {
-                return Ok(());
+                return None;
             }
             let v = t.range(avail + 1, 255);
             set_len(&mut e, "ch.comp", v as u64);
-            expect_rejected("compression-length-overlong", &e.buf, &tail, obs)
+            Some(("compression-length-overlong".to_string(), e.buf))
         }
         4 => {
             let n = t.below(4);
@@ -309,7 +309,7 @@ fn invalid(t: &mut Tape, obs: &mut Obs) -> R {
             let mut e = Enc::new();
             e.u8(4);
             e.vec(3, "hs.len", &body);
-            expect_rejected("ticket-shorter-than-4", &e.buf, &tail, obs)
+            Some(("ticket-shorter-than-4".to_string(), e.buf))
         }
         5 => {
             let k = t.pick(&[7usize, 14]);
@@ -320,7 +320,7 @@ fn invalid(t: &mut Tape, obs: &mut Obs) -> R {
             let lf = lenfield(&e, label).unwrap();
             let v = (lf.value as u64 + 1 + if t.bool() { 0 } else { t.u24b() as u64 }).min(0xff_ffff);
             set_len(&mut e, label, v);
-            expect_rejected(if k == 7 { "certificate-list-overlong" } else { "status-blob-overlong" }, &e.buf, &tail, obs)
+            Some((if k == 7 { "certificate-list-overlong" } else { "status-blob-overlong" }.to_string(), e.buf))
         }
         6 => {
             let mut h = gen_hs_kind(t, 2, 200);
@@ -334,7 +334,7 @@ fn invalid(t: &mut Tape, obs: &mut Obs) -> R {
             if let MHs::ServerHello { version, .. } = &mut h {
                 *version = v;
             }
-            expect_rejected("serverhello-unsupported-version", &h.to_bytes(), &tail, obs)
+            Some(("serverhello-unsupported-version".to_string(), h.to_bytes()))
         }
         7 => {
             let mut ty = t.u8();
@@ -345,7 +345,7 @@ fn invalid(t: &mut Tape, obs: &mut Obs) -> R {
             let mut e = Enc::new();
             e.u8(ty);
             e.vec(3, "hs.len", &body);
-            expect_rejected("unknown-type", &e.buf, &tail, obs)
+            Some(("unknown-type".to_string(), e.buf))
         }
         _ => {
             // declared length (and body) end inside a mandatory field
@@ -359,14 +359,22 @@ fn invalid(t: &mut Tape, obs: &mut Obs) -> R {
                 _ => body.len(),
             };
             if mand == 0 {
-                return Ok(());
+                return None;
             }
             let cut = t.below(mand);
             let mut e = Enc::new();
             e.u8(h.type_code());
             e.vec(3, "hs.len", &body[..cut]);
-            expect_rejected(&format!("mandatory-cut:{}", h.kind_name()), &e.buf, &tail, obs)
+            Some((format!("mandatory-cut:{}", h.kind_name()), e.buf))
         }
+    }
+}
+
+fn invalid(t: &mut Tape, obs: &mut Obs) -> R {
+    let tail = gen_hs_tail(t);
+    match gen_invalid(t) {
+        Some((what, msg)) => expect_rejected(&what, &msg, &tail, obs),
+        None => Ok(()),
     }
 }
 
